@@ -319,6 +319,11 @@ def mon_c07(c, r):
             after = (s_ in gcl[f]) if not rev else (f in gcl[s_])
             if s_ != f and after:
                 return 'function %d was started although it is ordered after the failed function %d' % (s_, f)
+    if failed and not r.returned() and 'a' not in [e.lstrip('+') for e in r.events] and r.ev and r.ev[-1][-1] == 'P':
+        ps2, pe2 = r.pos()
+        if all(x in pe2 for x in ps2) and not r.events[-1].startswith('+'):
+            return ('functions %s failed and every started function completed, but the call never returned its errors '
+                    '(pending, no wake-up outstanding)' % failed)
     if not r.returned() or o is None:
         return None
     if r.cfg['api'] == 'tryforeach':
